@@ -38,12 +38,13 @@
      "MetaShapedBlobAccepted" no domain separation between blob and meta ciphertexts: a user blob whose
                               PLAINTEXT is a well-formed meta file is accepted as a meta blob when its
                               ciphertext is found in the meta store *)
-EXTENDS Naturals, FiniteSets
+EXTENDS Naturals, FiniteSets, TLC
 
 CONSTANTS Plain,        \* plaintext blobs (positive naturals: ranks)
           Limit,        \* SmallMetaCountLimit
           MaxId,        \* bound on fresh object ids
           MaxJobs,      \* bound on concurrently running compaction goroutines
+          MaxCrash,     \* bound on the number of crashes explored
           Forge,        \* SUBSET Plain: blobs whose plaintext is a well-formed meta file (crafted by an attacker)
           TamperOn,     \* BOOLEAN: explore the tamper actions
           Deviations
@@ -59,9 +60,10 @@ VARIABLES enc,      \* objects in `blobs`: set of [id, p]           (name = id, 
           todo,     \* meta blobs the running start-up scan has not processed yet
           nextId,
           tam,      \* the tampering in force
-          fents     \* what the crafted blobs say: set of [f, p, c]
+          fents,    \* what the crafted blobs say: set of [f, p, c]
+          ncrash
 
-evars == <<enc, metas, heap, index, acked, recv, jobs, mode, todo, nextId, tam, fents>>
+evars == <<enc, metas, heap, index, acked, recv, jobs, mode, todo, nextId, tam, fents, ncrash>>
 
 NoRecv == [p |-> 0, pc |-> "idle", c |-> 0]
 NoTam == [target |-> "none", kind |-> "none", a |-> 0, b |-> 0]
@@ -86,7 +88,7 @@ PushJobs(h, js, m) == IF Cardinality(h \cup {m}) > Limit THEN js \cup {NewJob(h 
 CanPush(h, js, m) == Cardinality(h \cup {m}) <= Limit \/ Cardinality(js) < MaxJobs
 
 EInit == /\ enc = {} /\ metas = {} /\ heap = {} /\ index = {} /\ acked = {} /\ recv = NoRecv /\ jobs = {}
-         /\ mode = "up" /\ todo = {} /\ nextId = 1 /\ tam = NoTam /\ fents = {}
+         /\ mode = "up" /\ todo = {} /\ nextId = 1 /\ tam = NoTam /\ fents = {} /\ ncrash = 0
 
 Serving == mode = "up" /\ tam = NoTam
 
@@ -98,21 +100,21 @@ AfterIndex == IF Has("IndexBeforeMeta") THEN "meta" ELSE "ack"
 RecvStart(p) ==
   /\ Serving /\ recv = NoRecv
   /\ IF p \in Dom(index)
-       THEN acked' = acked \cup {p} /\ UNCHANGED <<recv, fents>>          \* "duplicated blob received"
+       THEN acked' = acked \cup {p} /\ UNCHANGED <<recv, fents, ncrash>>          \* "duplicated blob received"
        ELSE /\ recv' = [p |-> p, pc |-> "blob", c |-> 0]
             /\ acked' = acked
             /\ IF p \in Forge      \* the attacker crafts its content now: "victim v is stored as the ciphertext of w"
                  THEN \E v \in Dom(index), w \in Dom(index) :
                          v # w /\ fents' = {x \in fents : x.f # p} \cup {[f |-> p, p |-> v, c |-> Lookup(index, w)]}
                  ELSE fents' = fents
-  /\ UNCHANGED <<enc, metas, heap, index, jobs, mode, todo, nextId, tam>>
+  /\ UNCHANGED <<enc, metas, heap, index, jobs, mode, todo, nextId, tam, ncrash>>
 
 RecvBlob ==
   /\ mode = "up" /\ recv.pc = "blob" /\ nextId <= MaxId
   /\ enc' = enc \cup {[id |-> nextId, p |-> recv.p]}
   /\ recv' = [recv EXCEPT !.pc = AfterBlob, !.c = nextId]
   /\ nextId' = nextId + 1
-  /\ UNCHANGED <<metas, heap, index, acked, jobs, mode, todo, tam, fents>>
+  /\ UNCHANGED <<metas, heap, index, acked, jobs, mode, todo, tam, fents, ncrash>>
 
 RecvMeta ==
   /\ mode = "up" /\ recv.pc = "meta" /\ nextId <= MaxId
@@ -123,19 +125,19 @@ RecvMeta ==
      /\ jobs' = PushJobs(heap, jobs, hm)
   /\ recv' = [recv EXCEPT !.pc = AfterMeta]
   /\ nextId' = nextId + 1
-  /\ UNCHANGED <<enc, index, acked, mode, todo, tam, fents>>
+  /\ UNCHANGED <<enc, index, acked, mode, todo, tam, fents, ncrash>>
 
 RecvIndex ==
   /\ mode = "up" /\ recv.pc = "index"
   /\ index' = Override(index, {[p |-> recv.p, c |-> recv.c]})
   /\ recv' = [recv EXCEPT !.pc = AfterIndex]
-  /\ UNCHANGED <<enc, metas, heap, acked, jobs, mode, todo, nextId, tam, fents>>
+  /\ UNCHANGED <<enc, metas, heap, acked, jobs, mode, todo, nextId, tam, fents, ncrash>>
 
 RecvAck ==
   /\ mode = "up" /\ recv.pc = "ack"
   /\ acked' = acked \cup {recv.p}
   /\ recv' = NoRecv
-  /\ UNCHANGED <<enc, metas, heap, index, jobs, mode, todo, nextId, tam, fents>>
+  /\ UNCHANGED <<enc, metas, heap, index, jobs, mode, todo, nextId, tam, fents, ncrash>>
 
 (* ------------------------------------------------------------------ makePackedMetaBlob *)
 First(c) == IF Has("DeleteBeforeUpload") THEN (IF c = "a" THEN "delete" ELSE "upload")
@@ -148,12 +150,12 @@ Advance(js, j) == IF j.second THEN js \ {j}
 JobGetOk(j) ==
   /\ Running /\ j \in jobs /\ j.pc = "get" /\ j.plains \subseteq Dom(index)
   /\ jobs' = (jobs \ {j}) \cup {[j EXCEPT !.pc = First("a")]}
-  /\ UNCHANGED <<enc, metas, heap, index, acked, recv, mode, todo, nextId, tam, fents>>
+  /\ UNCHANGED <<enc, metas, heap, index, acked, recv, mode, todo, nextId, tam, fents, ncrash>>
 
 JobAbandon(j) ==
   /\ Running /\ j \in jobs /\ j.pc = "get" /\ ~(j.plains \subseteq Dom(index))
   /\ jobs' = jobs \ {j}
-  /\ UNCHANGED <<enc, metas, heap, index, acked, recv, mode, todo, nextId, tam, fents>>
+  /\ UNCHANGED <<enc, metas, heap, index, acked, recv, mode, todo, nextId, tam, fents, ncrash>>
 
 (* pcs: the job states from which the upload may be taken (the trace spec folds the silent index reads in) *)
 JobUploadFrom(j, pcs) ==
@@ -166,26 +168,27 @@ JobUploadFrom(j, pcs) ==
      /\ heap' = PushHeap(heap, hm)
      /\ jobs' = PushJobs(heap, rest, hm)
   /\ nextId' = nextId + 1
-  /\ UNCHANGED <<enc, index, acked, recv, mode, todo, tam, fents>>
+  /\ UNCHANGED <<enc, index, acked, recv, mode, todo, tam, fents, ncrash>>
 JobUpload(j) == JobUploadFrom(j, {"upload"})
 
 JobDelete(j) ==
   /\ Running /\ j \in jobs /\ j.pc = "delete"
   /\ metas' = {m \in metas : m.id \notin j.del}
   /\ jobs' = Advance(jobs, j)
-  /\ UNCHANGED <<enc, heap, index, acked, recv, mode, todo, nextId, tam, fents>>
+  /\ UNCHANGED <<enc, heap, index, acked, recv, mode, todo, nextId, tam, fents, ncrash>>
 
 (* ------------------------------------------------------------------ crash, start-up *)
 Crash ==
-  /\ mode \in {"up", "scan"} /\ tam = NoTam
+  /\ mode \in {"up", "scan"} /\ tam = NoTam /\ ncrash < MaxCrash
   /\ mode' = "down" /\ heap' = {} /\ jobs' = {} /\ recv' = NoRecv /\ todo' = {}
   /\ index' \in {index, {}}
+  /\ ncrash' = ncrash + 1
   /\ UNCHANGED <<enc, metas, acked, nextId, tam, fents>>
 
 RestartBegin ==
   /\ mode = "down" /\ tam = NoTam
   /\ mode' = "scan" /\ todo' = metas
-  /\ UNCHANGED <<enc, metas, heap, index, acked, recv, jobs, nextId, tam, fents>>
+  /\ UNCHANGED <<enc, metas, heap, index, acked, recv, jobs, nextId, tam, fents, ncrash>>
 
 ScanOne(m) ==
   /\ mode = "scan" /\ m \in todo
@@ -195,12 +198,12 @@ ScanOne(m) ==
      /\ jobs' = PushJobs(heap, jobs, hm)
   /\ index' = Override(index, m.ents)
   /\ todo' = todo \ {m}
-  /\ UNCHANGED <<enc, metas, acked, recv, mode, nextId, tam, fents>>
+  /\ UNCHANGED <<enc, metas, acked, recv, mode, nextId, tam, fents, ncrash>>
 
 RestartEnd ==
   /\ mode = "scan" /\ todo = {}
   /\ mode' = "up"
-  /\ UNCHANGED <<enc, metas, heap, index, acked, recv, jobs, todo, nextId, tam, fents>>
+  /\ UNCHANGED <<enc, metas, heap, index, acked, recv, jobs, todo, nextId, tam, fents, ncrash>>
 
 (* ------------------------------------------------------------------ tampering *)
 Quiescent == mode = "up" /\ recv = NoRecv /\ jobs = {}
@@ -217,7 +220,7 @@ Tamper(target, kind, a, b) ==
   /\ tam' = [target |-> target, kind |-> kind, a |-> a, b |-> b]
   /\ mode' = "down" /\ heap' = {}
   /\ index' \in {index, {}}          \* the fresh instance runs with the old local index or with a wiped one
-  /\ UNCHANGED <<enc, metas, acked, recv, jobs, todo, nextId, fents>>
+  /\ UNCHANGED <<enc, metas, acked, recv, jobs, todo, nextId, fents, ncrash>>
 
 PlainOfCipher(c) == (CHOOSE x \in enc : x.id = c).p
 EntsOfMeta(i) == (CHOOSE m \in metas : m.id = i).ents
@@ -253,12 +256,12 @@ TamperedRestart ==
                              /\ Functional(ix)
                              /\ Dom(ix) = Dom(ScannedEnts \cup index)
                              /\ \A e \in ix : e.p \in Dom(ScannedEnts) => e \in ScannedEnts}
-  /\ UNCHANGED <<enc, metas, heap, acked, recv, jobs, todo, nextId, tam, fents>>
+  /\ UNCHANGED <<enc, metas, heap, acked, recv, jobs, todo, nextId, tam, fents, ncrash>>
 
 Restore ==
   /\ tam # NoTam /\ mode \in {"up", "failed"}
   /\ tam' = NoTam /\ mode' = "down" /\ index' = {}
-  /\ UNCHANGED <<enc, metas, heap, acked, recv, jobs, todo, nextId, fents>>
+  /\ UNCHANGED <<enc, metas, heap, acked, recv, jobs, todo, nextId, fents, ncrash>>
 
 (* Fetch(p) as the code does it: index row, fetch the ciphertext, compare its digest with the row, decrypt *)
 FetchOutcome(p) ==
@@ -275,7 +278,10 @@ FetchOutcome(p) ==
 
 ENext == \/ \E p \in Plain : RecvStart(p)
          \/ RecvBlob \/ RecvMeta \/ RecvIndex \/ RecvAck
-         \/ \E j \in jobs : JobGetOk(j) \/ JobAbandon(j) \/ JobUpload(j) \/ JobDelete(j)
+         \/ \E j \in jobs : JobGetOk(j)
+         \/ \E j \in jobs : JobAbandon(j)
+         \/ \E j \in jobs : JobUpload(j)
+         \/ \E j \in jobs : JobDelete(j)
          \/ Crash \/ RestartBegin \/ RestartEnd
          \/ \E m \in todo : ScanOne(m)
          \/ \E t \in TamperTargets, k \in TamperKinds, a \in 1..MaxId, b \in 0..MaxId : Tamper(t, k, a, b)
@@ -302,6 +308,8 @@ AckedFetchable == Serving => \A p \in acked : FetchOutcome(p) = "orig"
 
 (* a meta blob disappears only when every entry it holds is held by a meta blob that stays *)
 DeleteOnlyCovered == [][\A m \in metas \ metas' : m.ents \subseteq AllEnts(metas')]_evars
+
+PlainSym == Permutations(Plain)
 
 ETypeOK == /\ \A x \in enc : x.id < nextId /\ x.p \in Plain
            /\ \A m \in metas : m.id < nextId /\ Functional(m.ents)
